@@ -29,7 +29,7 @@ var (
 	toFlag     = flag.Int("to", 0, "one past the last history (internal)")
 	streamFlag = flag.String("stream", "v", "v: valid stream, m: malformed stream, s: scenarios")
 	kindsFlag  = flag.String("kinds", "s,v,m", "streams to run")
-	fixFlag    = flag.String("fx", "11111111", "repairs present in the implementation (F14 F15 F16 F17 F19 F20 F21 F22)")
+	fixFlag    = flag.String("fx", "11111111111", "repairs present in the implementation (F14 F15 F16 F17 F19 F20 F21 F22 F23 F24 F25)")
 	countFlag  = flag.Int("count", 0, "histories per stream (0: by tier)")
 )
 
